@@ -58,6 +58,9 @@ def build(tier, seed, ctx):
         secrets.setdefault(k, set()).update(x for x in out.get(ln, []) if x != "-" and len(x) >= 16)
     for k, (pols, ops) in enumerate(plans):
         fails = [None] + ([] if tier == "quick" and k > 1 else [(oi, nth) for oi in range(len(ops)) if ops[oi].split()[0] in ("create", "add", "update") for nth in ((3, 9, 14, 22) if tier == "quick" else range(1, 40, 2))])
+        # an allocation failing while a packet call CLONES the wildcard template (first packet of a new SSRC): the half-built
+        # clone is released with whatever it already copied (MKI values, salts)
+        fails += ([] if tier == "quick" and k > 1 else [(oi, nth) for oi in range(len(ops)) if ops[oi].split()[0] in ("protect", "protect_rtcp", "unprotect") for nth in range(1, 9)])
         for f in fails:
             L = [p.line(pid) for pid, p in pols.items()]
             L += [f"secret | {s}" for s in sorted(secrets.get(k, ()))]
